@@ -71,7 +71,9 @@ ASSUMPTIONS = [
     "a @time_trigger function that also has a state/event/mqtt/webhook trigger decorator still runs once per denoted "
     "instant; the pokes of that other trigger never meet its condition (runs with another trigger_type are not "
     "judged here); a poke aimed at an instant may land a few passes before or after it",
-    "an instant may be skipped or fire late only if the loop was stalled past it; clock steps are not injected",
+    "an instant may be skipped or fire late only if the loop was stalled past it (a stall that begins within the "
+    "timing slack after the instant counts: the instant of a now-relative specification is known to the oracle "
+    "only to a few loop passes); clock steps are not injected",
     "sunrise/sunset come from the astral library (treated as environment, same location as the harness)",
     "task.wait_until(time_trigger=..): each call is one trigger whose 'now' is the instant the call began (known to "
     "a few loop passes: an instant that close to the beginning may or may not count); required is the return at the "
@@ -914,7 +916,7 @@ def _judge_waiters(w: World, scn: dict, info: dict, viol, zone, clock, sun, slac
     longest_stall = max((s["vt1"] - s["vt0"] for s in stalls), default=0.0)
 
     def in_stall(vt):
-        return any(s["vt0"] - 1e-6 <= vt <= s["vt1"] + slack for s in stalls)
+        return any(s["vt0"] - slack <= vt <= s["vt1"] + slack for s in stalls)
 
     for wt in scn["spec"].get("waiters") or []:
         if not wt["specs"]:
@@ -1082,10 +1084,10 @@ def oracle(w: World, scn: dict, info: dict):
     stalls = info["stalls"]
 
     def in_stall(vt):
-        return any(s["vt0"] - 1e-6 <= vt <= s["vt1"] + slack for s in stalls)
+        return any(s["vt0"] - slack <= vt <= s["vt1"] + slack for s in stalls)
 
     def stalled_past(vt):
-        return any(s["vt0"] - 1e-6 <= vt <= s["vt1"] for s in stalls)
+        return any(s["vt0"] - slack <= vt <= s["vt1"] for s in stalls)
 
     def poked_just_before(name, vt):
         """Was a poke of that function / waiter delivered within a few loop passes of the instant?  (Before it, as far
